@@ -185,7 +185,11 @@ type KeyEvent struct {
 }
 
 func (t *terminal) SendKey(ev KeyEvent) (int, error) {
-	seq := t.encodeKey(ev)
+	// the keyboard modes are changed by the read loop under the lock
+	var seq []byte
+	t.WithLock(func() {
+		seq = t.encodeKey(ev)
+	})
 	if len(seq) == 0 {
 		return 0, nil
 	}
